@@ -386,6 +386,41 @@ void check(const Case &c, mc::Ctx &ctx) {
     }
   }
   if (any_quant) ctx.count_max("max_quantization_error_permille_of_bound", uint64_t(worst * 1000.0));
+  // the same stream decoded into a KeyframeAnimation object that already holds another animation (3 frames, one int32 track)
+  // must give exactly what the fresh object got
+  {
+    static std::vector<char> decoy;
+    if (decoy.empty()) {
+      KeyframeAnimation a;
+      a.SetTimestamps(std::vector<float>{0.f, 1.f, 2.f});
+      a.AddKeyframes(DT_INT32, 1, std::vector<int32_t>{10, 11, 12});
+      EncoderBuffer eb;
+      KeyframeAnimationEncoder e;
+      EncoderOptions eo = EncoderOptions::CreateDefaultOptions();
+      if (e.EncodeKeyframeAnimation(a, eo, &eb).ok()) decoy.assign(eb.data(), eb.data() + eb.size());
+    }
+    KeyframeAnimation reused;
+    KeyframeAnimationDecoder d2;
+    DecoderBuffer b1, b2;
+    b1.Init(decoy.data(), decoy.size());
+    b2.Init(buffer.data(), buffer.size());
+    const bool ok1 = !decoy.empty() && d2.Decode(dopt, &b1, &reused).ok();
+    const bool ok2 = ok1 && d2.Decode(dopt, &b2, &reused).ok();
+    ctx.count("decodes_into_reused_animation_object");
+    bool same = ok2 && reused.num_frames() == dec.num_frames() && reused.num_attributes() == dec.num_attributes() &&
+                reused.num_animations() == dec.num_animations();
+    for (int a = 0; same && a < dec.num_attributes(); ++a) {
+      const PointAttribute *x = reused.attribute(a), *y = dec.attribute(a);
+      same = x->unique_id() == y->unique_id() && x->data_type() == y->data_type() && x->num_components() == y->num_components() &&
+             x->size() == y->size() && x->buffer()->data_size() == y->buffer()->data_size() &&
+             (y->buffer()->data_size() == 0 || memcmp(x->buffer()->data(), y->buffer()->data(), y->buffer()->data_size()) == 0);
+    }
+    if (same && reused.timestamps() != reused.attribute(0)) same = false;
+    if (!same) {
+      ctx.fail("reused-animation-object-differs-from-fresh-object", show(c));
+      return;
+    }
+  }
   ctx.count("roundtrip_ok");
 }
 
